@@ -28,6 +28,7 @@ type rec struct {
 	s    string
 	v    any
 	in   string // "file", "standard-batch", "IAT-batch", "ADV-batch"
+	b    interface{ Validate() error } // the batch holding the record, if any
 }
 
 type stringer interface{ String() string }
@@ -46,17 +47,19 @@ func isNil(v any) bool {
 func flatten(f *ach.File) []rec {
 	var out []rec
 	in := "file"
+	var cur interface{ Validate() error }
 	add := func(kind string, v stringer) {
 		if isNil(v) {
 			return
 		}
 		if s := v.String(); s != "" {
-			out = append(out, rec{kind, s, v, in})
+			out = append(out, rec{kind, s, v, in, cur})
 		}
 	}
 	add("FileHeader", &f.Header)
 	isADV := f.IsADV()
 	for _, b := range f.Batches {
+		cur = b
 		in = "standard-batch"
 		if _, ok := b.(*ach.BatchADV); ok || isADV {
 			in = "ADV-batch"
@@ -89,7 +92,7 @@ func flatten(f *ach.File) []rec {
 	}
 	for bi := range f.IATBatches {
 		b := &f.IATBatches[bi]
-		in = "IAT-batch"
+		in, cur = "IAT-batch", b
 		add("IATBatchHeader", b.GetHeader())
 		for _, e := range b.GetEntries() {
 			add("IATEntryDetail", e)
@@ -111,7 +114,7 @@ func flatten(f *ach.File) []rec {
 		}
 		add("BatchControl", b.GetControl())
 	}
-	in = "file"
+	in, cur = "file", nil
 	if !isADV {
 		add("FileControl", &f.Control)
 	} else {
@@ -120,8 +123,19 @@ func flatten(f *ach.File) []rec {
 	return out
 }
 
+// Numeric fields that String() renders with strconv.Itoa, i.e. without padding.
+var itoaWidth = map[string]int{"ServiceClassCode": 3, "OriginatorStatusCode": 1, "TransactionCode": 2, "AddendaRecordIndicator": 1}
+
 // kindDetail refines a record kind with the state that makes it special.
 func kindDetail(r rec) string {
+	if !isNil(r.v) && utf8.RuneCountInString(r.s) != 94 {
+		v := reflect.ValueOf(r.v).Elem()
+		for _, name := range []string{"ServiceClassCode", "TransactionCode", "OriginatorStatusCode", "AddendaRecordIndicator"} {
+			if fv := v.FieldByName(name); fv.IsValid() && fv.Kind() == reflect.Int && len(strconv.Itoa(int(fv.Int()))) != itoaWidth[name] {
+				return r.kind + "-" + name + "-rendered-unpadded"
+			}
+		}
+	}
 	if r.kind == "Addenda98" && !isNil(r.v) {
 		if fv := reflect.ValueOf(r.v).Elem().FieldByName("iatCorrectedData"); fv.IsValid() && fv.Kind() == reflect.String && fv.String() != "" {
 			return r.kind + "-iatCorrectedData"
@@ -273,6 +287,9 @@ func checkOutput(out []byte, le string, f *ach.File, created bool) (fs []finding
 			kind = kindDetail(mem[i])
 		}
 		if n := utf8.RuneCountInString(l); n != 94 || !utf8.ValidString(l) {
+			if i < len(mem) && mem[i].s == l && unvalidated(mem[i]) {
+				kind += "/record-not-validated-by-File.Validate"
+			}
 			if !seenWidth[kind] {
 				seenWidth[kind] = true
 				bad("line-width/"+kind, fmt.Sprintf("record %d is not exactly 94 characters", i+1), fmt.Sprintf("%d characters: %q", n, l), "94 characters")
@@ -281,6 +298,11 @@ func checkOutput(out []byte, le string, f *ach.File, created bool) (fs []finding
 		if strings.ContainsAny(l, "\r\n") {
 			if i < len(mem) && mem[i].s == l {
 				kind = mem[i].kind + "." + fieldWithTerminator(mem[i])
+				if unvalidated(mem[i]) {
+					// the record does not pass its own (or its batch's) Validate, yet the Writer's
+					// File.Validate let it through: the root cause is not this field
+					kind = "record-not-validated-by-File.Validate/" + mem[i].in
+				}
 			}
 			bad("line-terminator-inside-record/"+kind, fmt.Sprintf("record %d contains a line terminator that is not the configured line ending", i+1), fmt.Sprintf("%q", l), "no CR/LF inside a record")
 		}
@@ -713,15 +735,19 @@ func run(t *T) {
 		char  int
 		where uint64
 		pos   int // 0 first, 1 middle, 2 last character, otherwise random
+		inst  int // which record of the file having that field; -1 random
 	}
 	var pcs []pokeCase
-	seenSlot := map[string]int{}
-	perSlot := 3
+	// per field: instances taken so far, and the last file used (several instances per file,
+	// several files per field, because whether a bad value slips through can depend on the
+	// other fields of the record, e.g. a check digit that happens to be 0)
+	taken := map[string]int{}
+	maxInst, reps := 24, 3
 	if t.Tier != "quick" {
-		perSlot = 6
+		maxInst, reps = 60, 6
 	}
 	rc := t.R.Fork(0xC0)
-	for i := 0; i < 320; i++ {
+	for i := 0; i < 400; i++ {
 		seed := rc.Uint64()
 		o, _ := optsFor(i)
 		o.Risky = false
@@ -729,25 +755,31 @@ func run(t *T) {
 		if err != nil {
 			continue
 		}
+		inFile := map[string]int{}
 		for _, sl := range slotsOf(f) {
 			k := sl.kind + "." + sl.name
-			if seenSlot[k] >= perSlot*1000 || seenSlot[k]%1000 == i+1 {
-				continue // enough files for this field, or this file already used for it
+			j := inFile[k]
+			inFile[k]++
+			lim := maxInst
+			if sl.v.Len() <= 2 {
+				lim = 4 * maxInst // few positions to try, and the outcome may hinge on the value (check digits)
 			}
-			seenSlot[k] = seenSlot[k]/1000*1000 + 1000 + i + 1
+			if taken[k] >= lim || j >= 8 {
+				continue
+			}
+			taken[k]++
 			// positions: first, middle, last; further random ones beyond the quick tier
-			reps := 3
-			if t.Tier != "quick" {
-				reps = 8
-			}
 			for rep := 0; rep < reps; rep++ {
-				pcs = append(pcs, pokeCase{seed, i, k, 0, rc.Uint64(), rep}, pokeCase{seed, i, k, 1, rc.Uint64(), rep})
+				if rep > 0 && rep < 3 && sl.v.Len() == 1 {
+					continue
+				}
+				pcs = append(pcs, pokeCase{seed, i, k, 0, rc.Uint64(), rep, j}, pokeCase{seed, i, k, 1, rc.Uint64(), rep, j})
 			}
 		}
 	}
 	// C2: random fields x exotic one-character-wide runes
 	for i := 0; i < t.Budget(800); i++ {
-		pcs = append(pcs, pokeCase{rc.Uint64(), i, "", 2 + rc.Intn(len(pokeRunes)-2), rc.Uint64(), 3})
+		pcs = append(pcs, pokeCase{rc.Uint64(), i, "", 2 + rc.Intn(len(pokeRunes)-2), rc.Uint64(), 3, -1})
 	}
 	replay(t, parallel(len(pcs), func(i int) *result {
 		res := &result{}
@@ -760,7 +792,7 @@ func run(t *T) {
 			return res
 		}
 		r := gen.NewRand(pc.where)
-		what, poked := poke(r, f, pc.slot, pc.char, pc.pos)
+		what, _ := poke(r, f, pc.slot, pc.char, pc.pos, pc.inst)
 		if what == "" {
 			res.cases = append(res.cases, caseRec{"", "poke/nothing-to-poke", false})
 			return res
@@ -769,19 +801,60 @@ func run(t *T) {
 		if pc.char < 2 {
 			les = []int{0, 1}
 		}
-		// If the poked record does not pass its own Validate although the Writer (which runs
-		// File.Validate) accepted the file, the root cause is that File.Validate never looked at
-		// the record, not the field: file the failure under that.
-		var rewrite func(string) string
-		if v, ok := poked.v.(interface{ Validate() error }); ok {
-			if verr := safeValidate(v); verr != nil {
-				rewrite = func(sig string) string {
-					parts := strings.Split(sig, "/")
-					return strings.Join(parts[:2], "/") + "/record-not-validated-by-File.Validate/" + poked.in
+		writeAndCheck(f, true, les, describeNoID(f)+"|"+what, "poke/"+pokeRunes[pc.char].name, map[string]any{"generator": tag, "poked": what}, res, nil)
+		return res
+	}))
+
+	// ---- part D: the first digit of each record's 2-3 digit code blanked or zeroed ----
+	// (service class, transaction code, addenda type: rendered by String() without padding)
+	type codeCase struct {
+		name string
+		text []byte
+		line int
+		c    byte
+	}
+	var ccs []codeCase
+	rd := t.R.Fork(0xD0)
+	for i := 0; i < t.Budget(24); i++ {
+		sec := []string{"IAT", "ADV", "PPD", "COR", "CTX", "POS"}[i%6]
+		o := gen.Opts{SECs: []string{sec}, Categories: gen.AllCategories(), MaxBatches: 2, MaxEntries: 2}
+		f, err := gen.File(rd.Fork(uint64(i)), o)
+		if err != nil {
+			continue
+		}
+		txt, err, _ := writeFile(f, "\n")
+		if err != nil {
+			continue
+		}
+		for li, l := range strings.Split(string(txt), "\n") {
+			if len(l) > 2 && l[0] != '9' && l[0] != '1' {
+				for _, c := range []byte{' ', '0'} {
+					if l[1] != c {
+						ccs = append(ccs, codeCase{fmt.Sprintf("gen-code[%d]/%s", i, sec), txt, li, c})
+					}
 				}
 			}
 		}
-		writeAndCheck(f, true, les, describeNoID(f)+"|"+what, "poke/"+pokeRunes[pc.char].name, map[string]any{"generator": tag, "poked": what}, res, rewrite)
+	}
+	replay(t, parallel(len(ccs), func(i int) *result {
+		res := &result{}
+		cc := ccs[i]
+		lines := strings.Split(string(cc.text), "\n")
+		lines[cc.line] = lines[cc.line][:1] + string(cc.c) + lines[cc.line][2:]
+		text := []byte(strings.Join(lines, "\n"))
+		ops := fmt.Sprintf("code@%d=%q", cc.line, cc.c)
+		key := cc.name + "|" + ops
+		extra := map[string]any{"source": cc.name, "mutations": ops, "text_read": clipText(text)}
+		f1, rerr := readText(text)
+		if f1 == nil {
+			return res
+		}
+		how := "read-ok"
+		if rerr != nil {
+			how = "read-with-errors"
+			extra["read_error"] = rerr.Error()
+		}
+		writeAndCheck(f1, false, []int{0}, key+"|as-read", "code/"+how+"/as-read", extra, res, nil)
 		return res
 	}))
 
@@ -884,6 +957,15 @@ type slot struct {
 	rec        rec
 }
 
+// unvalidated says whether a record that was written does not pass its own
+// Validate, or its batch does not: File.Validate (run by the Writer) never looked at it.
+func unvalidated(r rec) bool {
+	if v, ok := r.v.(interface{ Validate() error }); ok && safeValidate(v) != nil {
+		return true
+	}
+	return r.b != nil && safeValidate(r.b) != nil
+}
+
 func safeValidate(v interface{ Validate() error }) (err error) {
 	defer func() {
 		if p := recover(); p != nil {
@@ -915,7 +997,7 @@ func slotsOf(f *ach.File) []slot {
 // poke replaces one character of one non-empty exported string field of one
 // record (the named one, or a random one) by a control or exotic character;
 // the value keeps its width.
-func poke(r *gen.Rand, f *ach.File, want string, char, pos int) (string, rec) {
+func poke(r *gen.Rand, f *ach.File, want string, char, pos, inst int) (string, rec) {
 	names := map[string][]slot{}
 	var order []string
 	for _, s := range slotsOf(f) {
@@ -936,6 +1018,9 @@ func poke(r *gen.Rand, f *ach.File, want string, char, pos int) (string, rec) {
 		return "", rec{}
 	}
 	s := gen.Pick(r, names[k])
+	if inst >= 0 && inst < len(names[k]) {
+		s = names[k][inst]
+	}
 	rs := []rune(s.v.String())
 	p := r.Intn(len(rs))
 	switch pos {
@@ -949,7 +1034,7 @@ func poke(r *gen.Rand, f *ach.File, want string, char, pos int) (string, rec) {
 	pr := pokeRunes[char]
 	rs[p] = pr.c
 	s.v.SetString(string(rs))
-	return fmt.Sprintf("%s[%d/%d]=%s", k, p, len(rs), pr.name), s.rec
+	return fmt.Sprintf("%s#%d[%d/%d]=%s", k, inst, p, len(rs), pr.name), s.rec
 }
 
 // fieldWithTerminator names the exported string field of a record whose value holds a CR or LF.
